@@ -329,6 +329,100 @@ async def client_lab(env, fx, res, viol):
     return table
 
 
+def names_lab(env, fx, res, viol):
+    """the COMMAND layer (services addressed by name, as the documented workflow does): `commands.create_service` for a second
+    service dies before / after every file-system mutation it performs - the service folder, its files AND the name table
+    `service_mapping.json` that all services share.  After the restart (a new process: the name table is read from disk again)
+    the first service must still be addressed by its name (the state before the interrupted step, for a service that was not
+    even involved), and creating the second service must be possible, after which both names resolve to loadable services."""
+    import contextlib, io, json, shutil
+    import crashlab
+    import frontend.client.commands as commands
+    import frontend.client.services.service_name_handler as snh
+    cfm = env["cfm"]
+    client_root = os.path.join(env["home"], ".sse", "client")
+    cfg = dict(fx.c[1]); cfg.pop("salt", None)
+    cfg_path = os.path.join(env["home"], "names_lab_config.json")
+    json.dump(cfg, open(cfg_path, "w"))
+
+    def restart():
+        # a new client process: nothing cached (the module does exactly this at import)
+        snh.read_service_mapping, snh.write_service_mapping = snh._get_service_mapping_read_and_write_function()
+
+    def create(name):
+        out = io.StringIO()
+        with contextlib.redirect_stdout(out):
+            commands.create_service(cfg_path, name)
+        return out.getvalue()
+
+    def resolve(name):
+        try:
+            sid = snh.get_service_id_by_sname(name)
+        except KeyError:
+            return None
+        return sid
+
+    ip = crashlab.Interposer(cfm, client_root).install()
+    ip2 = crashlab.Interposer(snh, client_root, parent=ip).install()
+    try:
+        def fresh_first():
+            shutil.rmtree(client_root, ignore_errors=True)
+            os.makedirs(client_root, exist_ok=True)
+            restart()
+            ip.reset(None)
+            create("first")
+            restart()
+            return resolve("first")
+        sid1 = fresh_first()
+        if sid1 is None:
+            return []
+        ip.reset(None)
+        create("second")
+        ops = list(ip.log)
+        for k in range(len(ops) + 1):
+            sid1 = fresh_first()
+            ip.reset(k)
+            try:
+                create("second")
+            except crashlab.CrashNow:
+                pass
+            crashed = ip.crashed
+            ip.crashed = False
+            ip.reset(None)
+            restart()
+            point = f"client create-service (by name) killed before mutation {k}/{len(ops)}" + \
+                    (f" ({ops[k][0]} {ops[k][1].split('/')[-1]})" if k < len(ops) else " (after the last)")
+            res.evaluations += 1
+            verdict, detail = "ok", ""
+            try:
+                got1 = resolve("first")
+                if got1 != sid1:
+                    verdict, detail = "earlier-service-lost", f"the name of the service created before resolves to {got1!r} instead of {sid1[:12]}…"
+                else:
+                    if resolve("second") is None:
+                        msg = create("second")
+                        restart()
+                    s2 = resolve("second")
+                    if s2 is None:
+                        verdict, detail = "cannot-complete", "creating the interrupted service again does not register its name: " + msg.strip()[-120:]
+                    elif not cfm.check_sid_local_file_valid(s2) or resolve("first") != sid1:
+                        verdict, detail = "inconsistent", "after completing the interrupted step a name resolves to a service that cannot be loaded"
+            except Exception as e:
+                verdict, detail = "client-unusable", f"{type(e).__name__}: {e}"
+            res.count("names:" + verdict)
+            res.extra.setdefault("client_points", []).append({"point": point, "outcome": verdict, "detail": detail[:120]})
+            if verdict != "ok":
+                viol(f"names:create:k={k}:{verdict}", f"{point}: {verdict} ({detail[:160]})",
+                     {"component": "client command layer", "handler": "create_service", "k": k, "ops": ops})
+        return [("client:create_service(by name)", ops)]
+    finally:
+        ip2.uninstall()
+        ip.uninstall()
+        shutil.rmtree(client_root, ignore_errors=True)
+        os.makedirs(client_root, exist_ok=True)
+        restart()
+
+
 async def e2e_server_lab(env, fx, res, viol):
     """the REAL client against the real server over a websocket; the SERVER dies before / after every file-system mutation
     it performs while it handles the client's configuration or index upload (every later mutation of the dead process fails
@@ -393,7 +487,9 @@ def run_labs(ctx, res):
             t2 = await client_lab(env, fx, res, viol)
             await e2e_server_lab(env, fx, res, viol)
             return t1 + t2
-        return asyncio.run(main())
+        tables = asyncio.run(main())
+        names_lab(env, fx, res, viol)          # its mutation list is not compared with the extracted handler programs
+        return tables
     finally:
         fe.teardown()
 
